@@ -166,6 +166,8 @@ def run(ck):
                 conds.setdefault(T.as_bool(pa.value), (m, pa.node))
         if any(isinstance(n, ast.While) for n in ast.walk(m.node)):
             main = m
+        elif main is None and any(isinstance(n, ast.For) and _counts_positions(ck, m, n, pos_attr) for n in ast.walk(m.node)):
+            main = m          # the scan written as `for _ in range(len(positions))` (one position per step, see C13.5)
     if main is None:
         raise AnalysisError(f"{builder.where}: scanning loop of the builder not found")
 
@@ -283,6 +285,27 @@ def run(ck):
         break
     loops = [n for n in ast.walk(main.node) if isinstance(n, ast.While)]
     from ..norm import Normalizer
+    counted = [n for n in ast.walk(main.node) if isinstance(n, ast.For) and _counts_positions(ck, main, n, pos_attr)]
+    if not loops and counted:
+        # a counted scan: len(positions) steps; it examines every position exactly when each step moves the cursor on by one
+        lp = counted[0]
+        from ..paths import Explorer
+        ex = Explorer(ck.ctx, main, track_heap=False, unroll=(0, 1), follow=lambda callee: callee.enclosing_class is builder)
+        body_paths = [q for q in ex.run(body=list(lp.body)) if q.outcome in ("fall", "continue")]
+        ck.add_paths(len(body_paths))
+        bad = []
+        for q in body_paths:
+            steps = [e for e in q.events if (e.kind == "aug" and e.extra["target"] == END) or
+                     (e.kind == "setattr" and e.extra["target"] == END and e.term != END)]
+            n_steps = len({id(e.node) for e in steps})          # `x += 1` is recorded as an aug and as the store it performs
+            if n_steps != 1:
+                bad.append((q, f"{n_steps} advances"))
+        early = [q for q in ex.run(body=list(lp.body)) if q.outcome in ("break", "return")]
+        ck.judge(not bad and not early and bool(body_paths), "C13.5", f"{builder.name}:scan-bound", where(main, lp),
+                 "the scan takes len(positions) steps and every step moves the cursor on by exactly one position (the last position "
+                 "is examined)", found=(bad[0][1] + " on " + bad[0][0].describe()[:160]) if bad else
+                 ("the loop can be left early" if early else f"{len(body_paths)} step paths, one advance each"),
+                 required="for _ in range(len(positions)) with one cursor advance on every path of the body")
     for pa in mpaths:
         conds_l = [e for e in pa.events if e.kind == "cond" and e.node in loops]
         if conds_l:
@@ -305,6 +328,19 @@ def run(ck):
     ok = bool(adv) and all((op == "Add" and v == C(1)) or (op == "Set" and v == T.p_add(END, C(1))) for op, v, _ in adv)
     ck.judge(ok, "C13.5", f"{builder.name}:cursor-step", main.where, "the cursor advances by exactly one position per step",
              found="; ".join(f"{op} {T.show(v)}" for op, v, _ in adv[:4]) or "no advance found", required="+= 1")
+
+
+def _counts_positions(ck, m, loop, pos_attr) -> bool:
+    """`for <unused> in range(len(self.<positions>))`"""
+    from ..norm import norm_in
+    try:
+        it = norm_in(ck.ctx, m, loop.iter)
+    except AnalysisError:
+        return False
+    P = self_attr(pos_attr)
+    return it in (T.mk_call("range", [T.mk_call("len", [P])]), T.mk_call("range", [C(0), T.mk_call("len", [P])])) and \
+        isinstance(loop.target, ast.Name) and not any(isinstance(x, ast.Name) and x.id == loop.target.id and x is not loop.target
+                                                      for b in loop.body for x in ast.walk(b))
 
 
 _reset_done = set()
